@@ -258,7 +258,8 @@ pub fn check_primal_certificate(ps: &ProblemSpec, out: &SolveOut, dropped: &[boo
         -tol.abs, out.c
     );
     ensure!(
-        res < -tol.rel * cbz * (1.0 + 1e-3) + slack,
+        // (the right-hand side inherits the rounding of the cancelling sum b'z~)
+        res < -tol.rel * cbz * (1.0 + 1e-3) + slack + tol.rel * 64.0 * EPS * out.c * bz_mag * kappa,
         "{what}: documented test fails: ||A'z~||/max(1,||z~||) = {res:e} is not below -tol_infeas_rel*c*b'z~ = {:e}",
         -tol.rel * cbz
     );
@@ -315,7 +316,8 @@ pub fn check_dual_certificate(ps: &ProblemSpec, out: &SolveOut, dropped: &[bool]
         -tol.abs
     );
     ensure!(
-        res < -tol.rel * cqx * (1.0 + 1e-3) + slack,
+        // (the right-hand side inherits the rounding of the cancelling sum q'x~)
+        res < -tol.rel * cqx * (1.0 + 1e-3) + slack + tol.rel * 64.0 * EPS * out.c * abs_dot(&dp.q, &xt),
         "{what}: documented test fails: max(c||Px~||/max(1,||x~||), ||Ax~+s~||/max(1,||x~||+||s~||)) = {res:e} is not below -tol_infeas_rel*c*q'x~ = {:e}",
         -tol.rel * cqx
     );
